@@ -42,8 +42,77 @@ pub mod sync {
     }
 }
 
+/// loom's threads, plus bookkeeping of how many spawned threads are still running: loom tears
+/// its per-execution statics down when the *main* closure returns, so a harness whose code
+/// under test detaches a thread (a forgotten join handle) must wait for it with
+/// [`thread::wait_all_spawned`] before returning.
 pub mod thread {
-    pub use loom::thread::*;
+    pub use loom::thread::{JoinHandle, current, park, yield_now};
+    use loom::sync::{Condvar, Mutex};
+
+    loom::lazy_static! {
+        static ref LIVE: Mutex<usize> = Mutex::new(0);
+        static ref LIVE_CV: Condvar = Condvar::new();
+    }
+
+    fn track<F, T>(f: F) -> impl FnOnce() -> T + Send + 'static
+    where
+        F: FnOnce() -> T + Send + 'static,
+        T: Send + 'static,
+    {
+        *LIVE.lock().unwrap() += 1;
+        move || {
+            let r = f();
+            // last action of the thread: everything `f` owned has been dropped
+            *LIVE.lock().unwrap() -= 1;
+            LIVE_CV.notify_all();
+            r
+        }
+    }
+
+    pub fn spawn<F, T>(f: F) -> JoinHandle<T>
+    where
+        F: FnOnce() -> T + Send + 'static,
+        T: Send + 'static,
+    {
+        loom::thread::spawn(track(f))
+    }
+
+    /// Blocks until every thread spawned through this module has finished.
+    pub fn wait_all_spawned() {
+        let mut g = LIVE.lock().unwrap();
+        while *g > 0 {
+            g = LIVE_CV.wait(g).unwrap();
+        }
+    }
+
+    #[derive(Debug)]
+    pub struct Builder(loom::thread::Builder);
+
+    impl Default for Builder {
+        fn default() -> Self {
+            Self::new()
+        }
+    }
+
+    impl Builder {
+        pub fn new() -> Builder {
+            Builder(loom::thread::Builder::new())
+        }
+        pub fn name(self, name: String) -> Builder {
+            Builder(self.0.name(name))
+        }
+        pub fn stack_size(self, size: usize) -> Builder {
+            Builder(self.0.stack_size(size))
+        }
+        pub fn spawn<F, T>(self, f: F) -> std::io::Result<JoinHandle<T>>
+        where
+            F: FnOnce() -> T + Send + 'static,
+            T: Send + 'static,
+        {
+            self.0.spawn(track(f))
+        }
+    }
 }
 
 /// The one lock + condition variable behind every blocking facade primitive (parker, channel,
@@ -579,7 +648,7 @@ pub mod std_shim {
         }
     }
     pub mod thread {
-        pub use loom::thread::*;
+        pub use super::super::thread::*;
     }
     pub mod time {
         pub use super::super::time::{Duration, Instant};
